@@ -30,7 +30,9 @@ def run(coq_dir, requires, items, timeout=600):
     src = ["From Coq Require Import ZArith List.", requires, "Import ListNotations.", "Open Scope Z_scope."]
     for key, expr, fmt in items:
         src.append("Eval vm_compute in (%s)." % expr)
-    d = tempfile.mkdtemp(prefix="vmcross", dir=os.path.join(coq_dir, ".."))
+    cache = os.path.join(coq_dir, "..", ".cache")
+    os.makedirs(cache, exist_ok=True)
+    d = tempfile.mkdtemp(prefix="vmcross", dir=cache)
     try:
         path = os.path.join(d, "cases.v")
         open(path, "w").write("\n".join(src) + "\n")
